@@ -500,6 +500,7 @@ def correspondence(ctx):
 
     r.merge(c04_wire.run(ctx))
     r.merge(c04_wire.run_late(ctx))
+    r.merge(c04_wire.run_pipelined(ctx))
     return r
 
 
@@ -509,6 +510,7 @@ def search(ctx, prior):
 
     r.merge(c04_wire.run(ctx, compare=False))
     r.merge(c04_wire.run_late(ctx))
+    r.merge(c04_wire.run_pipelined(ctx))
     return r
 
 
@@ -524,7 +526,7 @@ def replay(ctx, doc):
         print("plan:", plan)
         print("oracle:", f)
         return f is not None
-    if "wire_commands" in doc["failure"]["input"]:
+    if "wire_commands" in doc["failure"]["input"] or doc["failure"]["input"].get("kind") == "pipelined":
         from props import c04_wire
 
         return c04_wire.replay(doc["failure"]["input"])
